@@ -37,6 +37,7 @@ limitations under the License.
 #include "model_p.h"
 #include "units_p.h"
 #include "utilities.h"
+#include "variable_p.h"
 
 namespace libcellml {
 
@@ -399,6 +400,19 @@ ModelPtr Model::clone() const
         indexStack.pop_back();
     }
     applyEquivalenceMapToModel(map, m);
+
+    // Copy the mapping and connection identifiers stored for each recorded equivalence.
+    auto thisModel = std::const_pointer_cast<Model>(shared_from_this());
+    for (const auto &iter : map) {
+        auto variable = getVariableLocatedAt(iter.first, thisModel);
+        auto clonedVariable = getVariableLocatedAt(iter.first, m);
+        for (const auto &stack : iter.second) {
+            auto equivalentVariable = getVariableLocatedAt(stack, thisModel);
+            auto clonedEquivalentVariable = getVariableLocatedAt(stack, m);
+            clonedVariable->pFunc()->setEquivalentMappingId(clonedEquivalentVariable, variable->pFunc()->equivalentMappingId(equivalentVariable));
+            clonedVariable->pFunc()->setEquivalentConnectionId(clonedEquivalentVariable, variable->pFunc()->equivalentConnectionId(equivalentVariable));
+        }
+    }
 
     return m;
 }
